@@ -161,7 +161,7 @@ def r4(rr, repo):
     kinds = set()
     for p in za.paths('poll'):
         for e in p.events:
-            if e.kind == 'del' and e.term.startswith('self.clients['):
+            if (e.kind == 'del' and e.term.startswith('self.clients[')) or (e.kind == 'call' and e.term in ('self.clients.pop', 'clients.pop')):      # del clients[k] / clients.pop(k, None)
                 kinds.add('close' if any(kk.startswith('eq(-3,') and v is True for kk, v in p.pc[:e.pc_len]) else 'timeout')
     for kind in ('close', 'timeout'):
         rr.ob(f'a removal of the {kind} kind is reachable in poll_recv', kind in kinds, za.mod, za.S_poll, key=f'removal-{kind}')
@@ -224,3 +224,29 @@ def r11(rr, repo):
 def r12(rr, repo):
     from .c05 import r8 as c05r8
     c05r8(rr, repo)
+
+
+@rule('C06.R13', "a consumer cannot take its publisher down or age artificially: the publisher formats the id a request carries (whatever type the peer sent) instead of concatenating it, and the age of a request "
+                 "is measured with a clock that does not jump (monotonic) - a stepped wall clock would time out a consumer in an ordinary short stall")
+def r13(rr, repo):
+    za = anchors(repo)
+    keys = [n for n in walk_scope(za.S_poll) if isinstance(n, ast.Assign) and U(n.targets[0]) == 'full_id']
+    rr.floor('constructions of the client key in poll_recv', len(keys), 1, za.mod, za.S_poll)
+    for n in keys:
+        v = n.value
+        concat = isinstance(v, ast.BinOp) and isinstance(v.op, ast.Add)
+        fmt = isinstance(v, ast.JoinedStr) or (isinstance(v, ast.Call) and U(v.func) in ('str', 'format')) or (concat and all(isinstance(x, ast.Call) and U(x.func) == 'str' for x in (v.left,)))
+        if concat or fmt:
+            rr.ob('the client key is formatted from the request fields (a numeric id in a request must not raise in the publisher)', fmt, za.mod, n, witness=U(v)[:80], key='client-key-formatted')
+        else:
+            rr.unresolved('the client key is built in a way this rule does not know', za.mod, n, witness=U(v)[:80], key='client-key-formatted')
+    imps = [n for n in za.mod.tree.body if isinstance(n, ast.ImportFrom) and n.module == 'time']
+    clock = None
+    for n in imps:
+        for a in n.names:
+            if (a.asname or a.name) == 'time_ns':
+                clock = a.name
+    uses = [c for c in q.calls_in(za.S_poll) if U(c.func) in ('time_ns', 'time.time_ns', 'monotonic_ns', 'time.monotonic_ns', 'time', 'time.time', 'monotonic')]
+    rr.floor('clock readings in poll_recv', len(uses), 1, za.mod, za.S_poll)
+    mono = all((U(c.func) == 'time_ns' and clock in ('monotonic_ns',)) or 'monotonic' in U(c.func) for c in uses)
+    rr.ob('the clock that stamps requests and ages them against ZMQ_CONN_TIMEOUT is monotonic', mono, za.mod, uses[0] if uses else za.S_poll, witness=f'time_ns is imported as {clock}', key='conn-timeout-clock-monotonic')
